@@ -1,6 +1,7 @@
 import PoxModel.Properties.C01
 import PoxModel.Properties.C02
 import PoxModel.Proofs.FramingCodec
+import PoxModel.Model.CodecNX
 /-! # C01 ∘ C02 — the decoders the source defines satisfy the decoder hypothesis of the framing theorems
 
 `Properties/C02.lean` proves framing for EVERY decoder `U` that consumes exactly a well-formed message (`WF`).
@@ -92,5 +93,209 @@ theorem codec_stream_framing (n : Nat) (ms : List (Bytes × (String × Rec (Elem
 
 /-! non-vacuity: the port-mod example record of `C01` is such a message (type 15) -/
 example : messages.lookup 15 = some "ofp_port_mod" ∧ (cls "ofp_port_mod").isSome = true := by decide
+
+/-! ## `WF` for the hand-modelled messages: packet-out, statistics (body dispatch), `nxt_packet_in`, `nx_flow_mod`
+
+Same pattern as `codec_message_wf`, for the messages whose decoder is not a generated layout.  Each statement is about
+*every* decoder table `U` whose entry for the message's type code runs the hand model's decoder on the buffer from the
+offset (`viaDecoder`): `unpackers[13]` = `ofp_packet_out.unpack_new`, `unpackers[16/17]` = the stats classes,
+`unpackers[4]` = `_unpack_nx_vendor` on a Nicira packet-in; for `nx_flow_mod` the real controller has no entry of its own
+(a vendor message it does not expect), so that instance speaks about a receiver that installs one. -/
+
+theorem declLen_lt (b : Bytes) (off : Nat) : declLen b off < 65536 := by
+  unfold declLen byteAt
+  have h1 := (b.getD (off + 2) 0).toNat_lt
+  have h2 := (b.getD (off + 3) 0).toNat_lt
+  omega
+
+/-- from one layer of `Layout` with the header shape to `WF` for a decoder `D` built on top of it -/
+theorem wf_of_layer {M E : Type} (U : Unpack M) (t : Nat) (D : Bytes → Option (M × Bytes))
+    (hU : ∀ buf off, U t buf off = viaDecoder D buf off) (C : Codec E) (L : Layout) (nm1 nm2 : String) (F : List Field)
+    (hshape : L.fixed = .uint nm1 1 :: .uint nm2 1 :: .lenSelf 2 :: F) (h8f : 8 ≤ fixedSize L.fixed)
+    (bs tl0 : Bytes) (r r' : Rec E) (vs : List Val) (hvals : r'.vals = .num 1 :: .num t :: vs)
+    (henc : encode C L r = some bs) (hdecL : decode C L none bs = some (r', tl0)) (hlenf : hdrLen L bs = some bs.length)
+    (m : M) (hdec : ∀ tl, D (bs ++ tl) = some (m, tl)) : WF U bs m := by
+  obtain ⟨tb, _, hl⟩ := encode_length C L r bs henc
+  have h8 : 8 ≤ bs.length := by omega
+  obtain ⟨hv, hty, hdl⟩ := hdr_of_decode C L nm1 nm2 F hshape bs tl0 r' t vs hvals (by omega) hdecL hlenf
+  have hlt : bs.length < 65536 := by rw [← hdl]; exact declLen_lt bs 0
+  exact wf_via U t D hU bs m ⟨h8, hlt, hv, hdl⟩ hty hdec
+
+theorem hdrLen_congr (L L' : Layout) (h : L.fixed = L'.fixed) (bs : Bytes) : hdrLen L bs = hdrLen L' bs := by
+  unfold hdrLen; rw [h]
+
+/-- **packet_out_wf** -/
+theorem packet_out_wf {M : Type} (U : Unpack M) (inj : PacketOut (Elem n) → M)
+    (hU : ∀ buf off, U 13 buf off = viaDecoder (fun b => (decPacketOut (codecAt env n) b).map fun q => (inj q.1, q.2)) buf off)
+    (p : PacketOut (Elem n)) (hv : p.version = 1) (ht : p.header_type = 13) (hx : p.xid < 2 ^ 32) (hb : p.buffer_id < 2 ^ 32)
+    (hi : p.in_port < 65536) (hacts : ∀ e ∈ p.actions, okAt env n "actions" e)
+    (hlen : ∀ acts, encList ((codecAt env n).enc "actions") p.actions = some acts → 16 + acts.length + p.data.length < 65536) :
+    ∃ bs, encPacketOut (codecAt env n) p = some bs ∧ WF U bs (inj p) := by
+  obtain ⟨bs, he, hd0, hh0⟩ := C01.packet_out_roundtrip n p [] (by omega) (by omega) hx hb hi hacts hlen
+  simp only [List.append_nil] at hd0 hh0
+  refine ⟨bs, he, ?_⟩
+  -- the `Layout` layer underneath
+  have hencL : ∃ r, encode (codecAt env n) packetOutL r = some bs := by
+    unfold encPacketOut at he
+    split at he
+    · cases he
+    · exact ⟨_, he⟩
+  obtain ⟨r, hencL⟩ := hencL
+  have hdecL : ∃ vs tv, decode (codecAt env n) packetOutL none bs =
+      some (⟨.num p.version :: .num p.header_type :: vs, tv⟩, []) := by
+    unfold decPacketOut at hd0
+    split at hd0
+    · rename_i version header_type xid buffer_id in_port alen rr tl heq
+      split at hd0
+      · cases hd0
+      · split at hd0
+        · cases hd0
+        · simp only [Option.some.injEq, Prod.mk.injEq] at hd0
+          obtain ⟨hp, htl⟩ := hd0
+          subst htl
+          subst hp
+          exact ⟨[.num xid, .num buffer_id, .num in_port, .num alen], .rest rr, heq⟩
+    · cases hd0
+  obtain ⟨vs, tv, hdecL⟩ := hdecL
+  refine wf_of_layer U 13 _ hU (codecAt env n) packetOutL "version" "header_type" _ rfl (by decide) bs [] r _ vs
+    (by simp [hv, ht]) hencL hdecL hh0 (inj p) ?_
+  intro tl
+  obtain ⟨bs', he', hd', _⟩ := C01.packet_out_roundtrip n p tl (by omega) (by omega) hx hb hi hacts hlen
+  rw [he] at he'; cases he'
+  simp [hd']
+
+theorem statsLayout_fixed (reply : Bool) (t : Nat) : (statsLayout reply t).fixed = statsFixed := by
+  unfold statsLayout; split <;> rfl
+
+/-- **stats_reply_list_wf**: a statistics reply of a type registered as an array of entries -/
+theorem stats_reply_list_wf {M : Type} (U : Unpack M) (inj : Rec (Elem n) → M)
+    (hU : ∀ buf off, U 17 buf off = viaDecoder (fun b => (decStats (codecAt env n) true b).map fun q => (inj q.1, q.2)) buf off)
+    (t : Nat) (c : String) (r : Rec (Elem n)) (vs : List Val)
+    (hreg : statsReplies.lookup t = some (c, true)) (ht : statsType r.vals = some t) (hvals : r.vals = .num 1 :: .num 17 :: vs)
+    (hf : Fits (codecAt env n) (okAt env n) ⟨statsFixed, .list "body" c⟩ r) :
+    ∃ bs, encStats (codecAt env n) true r = some bs ∧ WF U bs (inj r) := by
+  obtain ⟨bs, he, hd0, hh0⟩ := C01.stats_reply_list_roundtrip n t c r [] hreg ht hf
+  simp only [List.append_nil] at hd0 hh0
+  refine ⟨bs, he, ?_⟩
+  have hencL : encode (codecAt env n) (statsLayout true t) r = some bs := by
+    unfold encStats at he; rw [ht] at he; exact he
+  have hdecL : decode (codecAt env n) (statsLayout true t) none bs = some (r, []) := by
+    unfold decStats at hd0
+    split at hd0
+    · rename_i r0 tl0 heq
+      split at hd0
+      · rename_i t' ht'
+        have hvv : r0.vals = r.vals := by
+          -- both decodes read the same fixed part
+          obtain ⟨l1, x1, h1⟩ := decode_vals _ _ _ _ _ _ heq
+          obtain ⟨l2, x2, h2⟩ := decode_vals _ _ _ _ _ _ hd0
+          rw [statsLayout_fixed] at h2
+          rw [show (⟨statsFixed, Tail.rest "body"⟩ : Layout).fixed = statsFixed from rfl, h2] at h1
+          simp only [Option.some.injEq, Prod.mk.injEq] at h1
+          exact h1.1.symm
+        rw [hvv, ht] at ht'
+        cases ht'
+        exact hd0
+      · cases hd0
+    · cases hd0
+  have hhL : hdrLen (statsLayout true t) bs = some bs.length := by
+    rw [hdrLen_congr (statsLayout true t) ⟨statsFixed, .rest "body"⟩ (statsLayout_fixed true t)]; exact hh0
+  refine wf_of_layer U 17 _ hU (codecAt env n) (statsLayout true t) "version" "header_type" _
+    (by rw [statsLayout_fixed]; rfl) (by rw [statsLayout_fixed]; decide) bs [] r r vs hvals hencL hdecL hhL (inj r) ?_
+  intro tl
+  obtain ⟨bs', he', hd', _⟩ := C01.stats_reply_list_roundtrip n t c r tl hreg ht hf
+  rw [he] at he'; cases he'
+  simp [hd']
+
+open Pox.CodecNX Pox.CodecNXM in
+/-- **nxt_packet_in_wf**: `_unpack_nx_vendor` → `nxt_packet_in.unpack` -/
+theorem nxt_packet_in_wf {M : Type} (U : Unpack M) (inj : NxPacketIn → M)
+    (hU : ∀ buf off, U 4 buf off = viaDecoder (fun b => (decNxPacketIn b).map fun q => (inj q.1, q.2)) buf off)
+    (p : NxPacketIn) (hv : p.version = 1) (hht : p.header_type = 4) (hx : p.xid < 2 ^ 32) (hvn : p.vendor < 2 ^ 32)
+    (hst : p.subtype < 2 ^ 32) (hb : p.buffer_id < 2 ^ 32) (htl : p.total_len < 65536) (hr : p.reason < 256)
+    (htb : p.table_id < 256) (hck : p.cookie < 2 ^ 64)
+    (hm : ∀ e ∈ p.match_, Canonical e.value.length e ∧ e.value.length < 64 ∧ e.type < 2 ^ 23 ∧
+      (known e.type = some e.value.length ∨ known e.type = none))
+    (hlen : ∀ mb, packMatch p.match_ = some mb → 40 + mb.length + pad8 mb.length + 2 + p.data.length < 65536) :
+    ∃ bs, encNxPacketIn p = some bs ∧ WF U bs (inj p) := by
+  obtain ⟨bs, he, hd0, hh0⟩ := C01.nxt_packet_in_roundtrip p [] (by omega) (by omega) hx hvn hst hb htl hr htb hck hm hlen
+  simp only [List.append_nil] at hd0 hh0
+  refine ⟨bs, he, ?_⟩
+  have hencL : ∃ r, encode Codec.empty nxpiL r = some bs := by
+    unfold encNxPacketIn at he
+    split at he
+    · exact ⟨_, he⟩
+    · cases he
+  obtain ⟨r, hencL⟩ := hencL
+  have hdecL : ∃ vs tv, decode Codec.empty nxpiL none bs = some (⟨.num p.version :: .num p.header_type :: vs, tv⟩, []) := by
+    unfold decNxPacketIn at hd0
+    split at hd0
+    · rename_i version header_type xid vendor subtype buffer_id total_len reason table_id cookie mlen rr tl heq
+      split at hd0
+      · cases hd0
+      · split at hd0
+        · cases hd0
+        · simp only [Option.some.injEq, Prod.mk.injEq] at hd0
+          obtain ⟨hp, htl'⟩ := hd0
+          subst htl'
+          subst hp
+          exact ⟨_, _, heq⟩
+    · cases hd0
+  obtain ⟨vs, tv, hdecL⟩ := hdecL
+  refine wf_of_layer U 4 _ hU Codec.empty nxpiL "version" "header_type" _ rfl (by decide) bs [] r _ vs
+    (by simp [hv, hht]) hencL hdecL hh0 (inj p) ?_
+  intro tl
+  obtain ⟨bs', he', hd', _⟩ := C01.nxt_packet_in_roundtrip p tl (by omega) (by omega) hx hvn hst hb htl hr htb hck hm hlen
+  rw [he] at he'; cases he'
+  simp [hd']
+
+open Pox.CodecNX Pox.CodecNXM in
+/-- **nx_flow_mod_wf**: for a receiver whose vendor entry decodes NXT_FLOW_MOD with `nx_flow_mod.unpack` -/
+theorem nx_flow_mod_wf {M : Type} (U : Unpack M) (inj : NxFlowMod (Elem n) → M)
+    (hU : ∀ buf off, U 4 buf off = viaDecoder (fun b => (decNxFlowMod (codecAt env n) b).map fun q => (inj q.1, q.2)) buf off)
+    (m : NxFlowMod (Elem n)) (hv : m.version = 1) (hht : m.header_type = 4) (hx : m.xid < 2 ^ 32) (hvn : m.vendor < 2 ^ 32)
+    (hst : m.subtype < 2 ^ 32) (hck : m.cookie < 2 ^ 64) (hc : m.command < 256) (htb : m.table_id < 256)
+    (hi : m.idle_timeout < 65536) (hh : m.hard_timeout < 65536) (hp : m.priority < 65536) (hb : m.buffer_id < 2 ^ 32)
+    (ho : m.out_port < 65536) (hfl : m.flags < 65536)
+    (hm : ∀ e ∈ m.match_, Canonical e.value.length e ∧ e.value.length < 64 ∧ e.type < 2 ^ 23 ∧
+      (known e.type = some e.value.length ∨ known e.type = none))
+    (hacts : ∀ e ∈ m.actions, okAt env n "actions" e)
+    (hlen : ∀ mb acts, packMatch m.match_ = some mb → encList ((codecAt env n).enc "actions") m.actions = some acts →
+      48 + mb.length + pad8 mb.length + acts.length < 65536) :
+    ∃ bs, encNxFlowMod (codecAt env n) m = some bs ∧ WF U bs (inj m) := by
+  obtain ⟨bs, he, hd0, hh0⟩ := C01.nx_flow_mod_roundtrip n m [] (by omega) (by omega) hx hvn hst hck hc htb hi hh hp hb ho hfl hm hacts hlen
+  simp only [List.append_nil] at hd0 hh0
+  refine ⟨bs, he, ?_⟩
+  have hencL : ∃ r, encode (codecAt env n) nxfmL r = some bs := by
+    unfold encNxFlowMod at he
+    split at he
+    · simp only [hc, ↓reduceIte] at he
+      exact ⟨_, he⟩
+    · cases he
+  obtain ⟨r, hencL⟩ := hencL
+  have hdecL : ∃ vs tv, decode (codecAt env n) nxfmL none bs = some (⟨.num m.version :: .num m.header_type :: vs, tv⟩, []) := by
+    unfold decNxFlowMod at hd0
+    split at hd0
+    · rename_i version header_type xid vendor subtype cookie cmd idle hard priority buffer_id out_port flags mlen rr tl heq
+      split at hd0
+      · cases hd0
+      · split at hd0
+        · cases hd0
+        · dsimp only at hd0
+          split at hd0
+          · cases hd0
+          · simp only [Option.some.injEq, Prod.mk.injEq] at hd0
+            obtain ⟨hp', htl'⟩ := hd0
+            subst htl'
+            subst hp'
+            exact ⟨_, _, heq⟩
+    · cases hd0
+  obtain ⟨vs, tv, hdecL⟩ := hdecL
+  refine wf_of_layer U 4 _ hU (codecAt env n) nxfmL "version" "header_type" _ rfl (by decide) bs [] r _ vs
+    (by simp [hv, hht]) hencL hdecL hh0 (inj m) ?_
+  intro tl
+  obtain ⟨bs', he', hd', _⟩ := C01.nx_flow_mod_roundtrip n m tl (by omega) (by omega) hx hvn hst hck hc htb hi hh hp hb ho hfl hm hacts hlen
+  rw [he] at he'; cases he'
+  simp [hd']
 
 end Pox.C01F
